@@ -116,6 +116,54 @@ Section Alg.
     plain_points leb cosd sind sqrt angle true (PI_dip (DPoint c az el)) len
     = Some (fst (point_to_dipole cosd sind c az el len) :: snd (point_to_dipole cosd sind c az el len) :: nil).
   Proof. reflexivity. Qed.
+
+  Lemma option_map_pair_snd {A B} (o : option A) (b b' : B) (a : A) :
+    option_map (fun p => (p, b)) o = Some (a, b') -> b' = b.
+  Proof. destruct o; cbn; congruence. Qed.
+
+  (* keywords: an explicit strength is the strength of the instance, also when
+     it is zero; a missing one is 1; explicit None raises *)
+  Lemma gsf_plain_strength st klen kel inp pts st' :
+    gsf_plain leb cosd sind sqrt angle (KwVal st) klen kel inp = Some (pts, st') -> st' = st.
+  Proof.
+    unfold gsf_plain. destruct klen; try destruct inp as [[? ? ?|? ? ? ? ? ?|? ?]|?];
+      cbv iota beta; first [discriminate | apply option_map_pair_snd].
+  Qed.
+  Lemma gsf_plain_missing_strength klen kel inp pts st' :
+    gsf_plain leb cosd sind sqrt angle KwMissing klen kel inp = Some (pts, st') -> st' = (1, 0).
+  Proof.
+    unfold gsf_plain. destruct klen; try destruct inp as [[? ? ?|? ? ? ? ? ?|? ?]|?];
+      cbv iota beta; first [discriminate | apply option_map_pair_snd].
+  Qed.
+  Lemma gsf_plain_none_strength klen kel inp :
+    gsf_plain leb cosd sind sqrt angle KwNone klen kel inp = None.
+  Proof. reflexivity. Qed.
+  Lemma gsf_plain_length_point kst len kel c az el :
+    kst <> KwNone ->
+    gsf_plain leb cosd sind sqrt angle kst (KwVal len) kel (PI_dip (DPoint c az el))
+    = option_map (fun p => (p, match kst with KwVal v => v | _ => (1, 0) end))
+        (dipole_points leb cosd sind sqrt angle (negb (kw_electric kel)) (DPoint c az el) len).
+  Proof. intros H. destruct kst; try reflexivity. contradiction. Qed.
+
+  (* the source field is linear in the strength; strength zero gives the zero field *)
+  Lemma scale_linear freq k sr si stc v :
+    source_scale leb pi mu0 freq (k * sr, k * si) stc v
+    = option_map (fun z => (k * fst z, k * snd z)) (source_scale leb pi mu0 freq (sr, si) stc v).
+  Proof.
+    unfold source_scale. destruct freq as [f|].
+    - destruct (feqb leb f 0); [reflexivity|]. destruct (fltb leb f 0 && stc)%bool; [reflexivity|].
+      unfold cmul, smu0, sval, two. destruct (fltb leb f 0); cbn [option_map fst snd]; f_equal; f_equal; ring.
+    - destruct stc; [reflexivity|]. unfold cmul. cbn [option_map fst snd]. f_equal. f_equal; ring.
+  Qed.
+  Lemma scale_zero_strength freq stc v z :
+    source_scale leb pi mu0 freq (0, 0) stc v = Some z -> z = (0, 0).
+  Proof.
+    unfold source_scale. destruct freq as [f|].
+    - destruct (feqb leb f 0); [discriminate|]. destruct (fltb leb f 0 && stc)%bool; [discriminate|].
+      unfold cmul, smu0, sval, two. destruct (fltb leb f 0); cbn [fst snd]; intros E; injection E as <-;
+        f_equal; ring.
+    - destruct stc; [discriminate|]. unfold cmul. cbn [fst snd]. intros E. injection E as <-. f_equal; ring.
+  Qed.
 End Alg.
 
 (* ----------------------------------------------- loop geometry over R *)
@@ -391,3 +439,13 @@ Qed.
 
 Lemma ex_laplace : feqb Rleb (-1) 0 = false /\ fltb Rleb (-1) 0 = true.
 Proof. split; [apply feqb_false; lra | apply fltb_true; lra]. Qed.
+
+Lemma ex_zero_strength :
+  source_scale Rleb PI 1 (Some 2) (0, 0) false 3 = Some (0, 0) /\
+  source_scale Rleb PI 1 None (0, 0) false 3 = Some (0, 0).
+Proof.
+  assert (E1 : feqb Rleb 2 0 = false) by (apply feqb_false; lra).
+  assert (E2 : fltb Rleb 2 0 = false) by (apply fltb_false; lra).
+  unfold source_scale, smu0, sval, cmul. runf. rewrite E1, !E2. cbn [andb fst snd].
+  split; f_equal; f_equal; ring.
+Qed.
